@@ -26,6 +26,7 @@ func init() {
 		ID: "C12",
 		Rule: "Each case: a seeded reflect.StructOf config type with flag-supported leaves (all integer widths, floats, complex, bool, string, duration, time.Time, net.IP, a harness TextUnmarshaler, []string, integer slices, string maps, sets, string->[]string maps, named scalars; nested/pointer/embedded structs; dials tags verbatim, source-specific tags on some leaves), a random template, and a random argument list (subset of flags, repeats of accumulating flags, any order, -x v / --x=v / bare bool forms), for both sources/flag and sources/pflag via NewSetWithArgs and for the default and a custom NameConfig. " +
 			"Oracles: every leaf has a flag whose name is computed from the generator's word lists and verbatim tags; the advertised defaults, fed back as --name=<DefValue> to a second set built from a zero template, must reproduce the template's values; Set.Value stacked over zero defaults must equal the reference layer of exactly the flags in argv (repeated slice flags concatenate, sets union, maps merge, string->[]string maps append per key; the occurrences of a repeated flag are disjoint pieces of the value or OVERLAP: a later occurrence repeats list elements, set members, map entries or map keys that an earlier occurrence already gave); a set's own Parse, when its owner calls it first, must accept the same well-formed argv; a value outside the leaf's range (narrowing probes for every width below the carrier type) must be an error. " +
+			"Every fourth case also runs a fixed config type whose leaves are user-declared pointers to pointers (**int, **Level, **string, **float64, **bool, **time.Duration, **uint16, ***int and **int8 one struct down, next to a plain *int) with seeded texts for a seeded subset of flags in both argument forms: each given flag's value must be reachable through every declared level and print as the text given, each flag not given must leave its field nil, and an out-of-range text for a narrow leaf must be an error (violation keys carry ptr-to-ptr-leaves). " +
 			"distinct_nontrivial = distinct (package, name config, type-shape, argv pattern) signatures with >=1 flag given and >=1 omitted.",
 		Assumptions: []string{
 			"named slice/map types get no flag (outside the statement: 'named scalars'); not generated",
@@ -34,7 +35,8 @@ func init() {
 		MinDistinct: map[string]int{"quick": 8000, "thorough": 1000000},
 		MinCounters: map[string]map[string]int64{
 			"quick":    {"flags_given_and_compared": 15000, "leaves_expected_unset": 15000, "default_roundtrips_checked": 3000, "out_of_range_probes_rejected": 300, "repeated_flag_accumulations": 1500,
-				"later_occurrences_restating_earlier_ones": 500, "set_occurrences_repeating_a_member": 100},
+				"later_occurrences_restating_earlier_ones": 500, "set_occurrences_repeating_a_member": 100,
+				"ptrptr_flags_given_and_compared": 10000, "ptrptr_leaves_expected_unset": 10000, "ptrptr_out_of_range_probes_rejected": 300},
 			"thorough": {"flags_given_and_compared": 600000, "later_occurrences_restating_earlier_ones": 50000, "set_occurrences_repeating_a_member": 10000},
 		},
 		Plan: func(tier string) fw.Plan {
@@ -274,6 +276,10 @@ func narrowingProbe(lf *gen.Leaf) string {
 func runC12(w *fw.Worker) {
 	w.Cases(func(i int, r *fw.Rand) {
 		pk := flagPkgs[i%2]
+		if i%8 == 3 || i%8 == 6 {
+			// own random stream: the generated case below keeps the values it had before these episodes existed
+			c12PtrPtr(w, i, fw.NewRand(fw.Mix(w.CaseSeed(i), 0x5a17c0de)), pk)
+		}
 		custom := r.Chance(30)
 		o := gen.GenOpts{MaxDepth: 3 - r.Intn(2), MaxFields: r.Range(2, 6), StructPct: r.Range(10, 45), TagPct: r.Range(0, 40), SkipPct: r.Range(0, 15),
 			Leaves: flagLeaves(), InitialismPct: 20, SingleLetterPct: 3, UnicodePct: 8}
